@@ -315,7 +315,7 @@ Definition slab_insert (l : list sentry) (next : N) (child : N) : list sentry * 
 Definition state_drops (a : N) (sa : astate) (s : st) : list mop * st :=
   match sa with
   | SPrep held => (map MDropItem held, s)
-  | SReady sh slab _ => (drops sh ++ slab_drops slab, emit s (EValDrop a))
+  | SReady sh slab _ => (MEmit (EValDrop a) :: drops sh ++ slab_drops slab, s)
   | SZombie => ([], s)
   end.
 
